@@ -119,7 +119,11 @@ def runCx (c : Case) : Res :=
       if expect == "valid12" then
         -- C13: a document that was LOADED must describe a structurally consistent complex
         if !J.l1 then bad := s!"loaded document fails Level 1 (element validity): corruption={c.arg "corruption"}" :: bad
-        if J.l1 && !J.l2 then bad := s!"loaded document fails Level 2 (structure): corruption={c.arg "corruption"}" :: bad
+        if J.l1 && !J.l2 then
+          let parts : List (String × Bool) := [("idsUnique", idsUnique K), ("vertsExist", vertsExist K), ("incidentOk", incidentOk K),
+            ("noDupCells", noDupCells K), ("facetLe2", facetLe2 K), ("nbrOk", nbrOk K), ("coherent", coherent K)]
+          let failing := (parts.filter (fun p => !p.2)).map (·.1)
+          bad := s!"loaded document fails Level 2 (structure) {failing}: corruption={c.arg "corruption"}" :: bad
       if expect == "valid12m" then
         if !J.l1 then bad := "state fails Level 1 (element validity) on independent recomputation" :: bad
         if !J.l2 then bad := "state fails Level 2 (structure) on independent recomputation" :: bad
@@ -281,12 +285,20 @@ def runCx (c : Case) : Res :=
       -- the public PART validators, each against its own model function, on structurally valid
       -- complexes (Levels 1-2) and in the library's own order: a later part is only compared when
       -- the earlier ones hold (the library never evaluates it otherwise)
-      if J.l1 && J.l2 then
-        let cmp (n : String) (want : Bool) (what : String) : List String :=
-          match obOk c n with
-          | some b => if b != want then [s!"part validator {what} says {boolTok b}, its model says {boolTok want}"] else []
-          | none => []
+      let cmp (n : String) (want : Bool) (what : String) : List String :=
+        match obOk c n with
+        | some b => if b != want then [s!"part validator {what} says {boolTok b}, its model says {boolTok want}"] else []
+        | none => []
+      -- connectivity is a walk over the STORED cells along neighbour keys: defined for every complex
+      -- whose elements are valid, dangling neighbour keys (raw `remove_cell_by_key`) included
+      -- (the walk starts at the first stored cell, which the export order need not preserve: the
+      -- comparison is made where the answer cannot depend on the start, i.e. where the neighbour
+      -- relation among the stored cells is symmetric)
+      let listsId (s : Cell) (i : Nat) : Bool := match s.nb with | none => false | some l => l.contains (some i)
+      let symmetric : Bool := K.cells.all (fun s => K.cells.all (fun b => listsId s b.id == listsId b s.id))
+      if J.l1 && decide (K.cells.map (·.id)).Nodup && symmetric then
         bad := cmp "p_connected" (connected K) "Tds::is_connected" ++ bad
+      if J.l1 && J.l2 then
         bad := cmp "p_coherent" (coherent K) "Tds::is_coherently_oriented" ++ bad
         bad := cmp "p_facet_degree" (facetDegOk K) "validate_facet_degree" ++ bad
         if facetDegOk K then
